@@ -78,3 +78,24 @@ Theorem C06_component_end_to_end_any_positioner : forall bk o g g' x, component_
   layout_component_x bk o g = Ok (g', x) -> E4_statement (o_p5 o) (o_layer_spacing o) g g'.
 Proof. exact Gx4_route_shape_any. Qed.
 Print Assumptions C06_component_end_to_end_any_positioner.
+
+(* ---------- spline routing: 4k control points whose cubic pieces join end to end (Proofs/SplinePipeline2.v), for every
+   router/fitter with the contracts [shortest_ok] / [fit_ok] (see Properties/C05.v) ---------- *)
+From Autog Require Import Geom SplineStruct Splines PipelineSpl SplineProofs SplineRouting SplinePipeline SplinePipeline2.
+
+Theorem C06_spline_routes_4k_points_joined : forall shortest fit mk_inner, shortest_ok shortest -> fit_ok fit ->
+  forall bk o g g' x, component_input g -> o_p5 o = Phase5.OtherRouting ->
+  layout_component_sx shortest fit mk_inner bk o g = Ok (g', x) ->
+  forall e, In e (g_E g) -> self_loop g e = false ->
+    let pts := e_pts (gedge g' e) in
+    exists k, (1 <= k)%nat /\ length pts = (4 * k)%nat /\
+      forall d i, (i + 1 < k)%nat -> nth (4 * i + 3) pts d = nth (4 * (i + 1)) pts d.
+Proof. exact Gs4_spline_points. Qed.
+Print Assumptions C06_spline_routes_4k_points_joined.
+
+(* the structure of FitSpline meets the fitter's contract for every numeric oracle that keeps the end points *)
+Theorem C06_fit_spline_meets_contract : forall (tryfit : piece pt -> list pt -> pt -> pt -> option (piece pt)) maxerr tangent ctrl0 fuel t0,
+  tryfit_keeps_ends tryfit ->
+  fit_ok (fun path _ => fit_spline tryfit maxerr tangent ctrl0 fuel path t0 t0).
+Proof. intros. apply fit_spline_fit_ok. assumption. Qed.
+Print Assumptions C06_fit_spline_meets_contract.
